@@ -409,6 +409,12 @@ func (c *Ctx) callCoverage(fam *expFamily, fd *ast.FuncDecl, oc *originCtx, hp t
 			continue
 		}
 		p := o.sub()
+		if w := c.foreignGuard(fd, call, hp, o.steps); w != "" {
+			if _, had := out[p]; !had {
+				out[p] = w
+			}
+			continue
+		}
 		if !o.copy {
 			out[p] = ""
 			continue
@@ -1175,4 +1181,45 @@ func (c *Ctx) isRefClearHelper(call *ast.CallExpr) bool {
 		return true
 	})
 	return clears > 0 && !other
+}
+
+// foreignGuard: the call that expands the element at (hp, steps) is reached only under a condition on ANOTHER
+// part of the same holder (neither an ancestor nor a descendant of the element's position): then the element
+// is skipped for holders whose other part happens to be absent. Returns the reason, or "".
+func (c *Ctx) foreignGuard(fd *ast.FuncDecl, call *ast.CallExpr, hp types.Object, steps []string) string {
+	related := func(a, b []string) bool {
+		n := len(a)
+		if len(b) < n {
+			n = len(b)
+		}
+		for i := 0; i < n; i++ {
+			if a[i] != b[i] && a[i] != "[]" && b[i] != "[]" {
+				return false
+			}
+		}
+		return true
+	}
+	oc := c.newOriginCtx(fd)
+	for _, cl := range c.literalsAt(fd, call) {
+		bad := ""
+		ast.Inspect(cl.e, func(n ast.Node) bool {
+			e, ok := n.(ast.Expr)
+			if !ok {
+				return true
+			}
+			if _, isSel := e.(*ast.SelectorExpr); !isSel {
+				return true
+			}
+			for _, o := range oc.origins(e, 0) {
+				if o.root == hp && len(o.steps) > 0 && !related(o.steps, steps) {
+					bad = exprString(cl.e)
+				}
+			}
+			return false
+		})
+		if bad != "" {
+			return "the element is handed to its expander only when " + bad + " lets the function get that far: a holder without that other part keeps the $refs of this one"
+		}
+	}
+	return ""
 }
